@@ -784,7 +784,7 @@ def compare_trace(ctx, case, model, recs, pr, out):
 
 def check(ctx):
     r = ctx.fork("cases")
-    per_model = ctx.budget(14, 120)
+    per_model = ctx.budget(60, 500)
     n_reps = 6 if ctx.tier == "quick" else 8
     lines, pending = [], []
     for model in MODELS:
